@@ -1,5 +1,6 @@
 #![allow(dead_code)]
 mod backends;
+mod c19;
 mod engine;
 mod faults;
 mod gens;
@@ -59,6 +60,26 @@ fn main() {
             let verif_dir = std::env::var("VERIF_DIR").unwrap_or_else(|_| "/verif".into());
             let defs = props::ALL.iter().filter_map(|id| props::def(id)).collect();
             std::process::exit(engine::replay_file(defs, &path, &verif_dir));
+        }
+        Some("c19-fixtures") => {
+            let v: u8 = args.get(2).and_then(|s| s.parse().ok()).unwrap_or(4);
+            let seed: u64 = args.get(3).and_then(|s| s.parse().ok()).unwrap_or(1);
+            println!("{}", serde_json::to_string(&c19::fixtures(v, seed)).unwrap());
+        }
+        Some("c19-accept") => {
+            // args: <fixtures.json> ; stdin: probe output
+            let fx: serde_json::Value = serde_json::from_str(&std::fs::read_to_string(args.get(2).cloned().unwrap_or_default()).unwrap_or_default()).unwrap_or_default();
+            let mut input = String::new();
+            use std::io::Read;
+            let _ = std::io::stdin().read_to_string(&mut input);
+            let mut bad = 0;
+            for (kind, r) in c19::accept(&fx, &input) {
+                match r {
+                    Ok(()) => println!("ACCEPT {kind}"),
+                    Err(e) => { bad += 1; println!("REFUSE {kind} {e}"); }
+                }
+            }
+            std::process::exit(if bad == 0 { 0 } else { 1 });
         }
         Some("genkeys") => {
             let out = keypool::generate(8, 4);
